@@ -119,6 +119,7 @@ GuardVal(c, G, o, i) ==
     [] t.gk = "after"  -> o.clk - t.ga >= G.entryT[t.src]
     [] t.gk = "idle"   -> o.clk - t.ga >= G.idleT[t.src]
     [] t.gk = "active" -> t.ga \in o.pre.conf
+    [] t.gk = "xlt"    -> o.pre.x < t.ga
 
 NextEv(G, o) ==
   LET i == NextDueIdx(G.pend, o.clk) IN IF i = 0 THEN PEntry("", 0, 0, 0) ELSE G.pend[i]
